@@ -67,6 +67,13 @@ class Ctx:
         for st in body[:-1]:
             if isinstance(st, ast.Assign) and len(st.targets) == 1 and isinstance(st.targets[0], ast.Name):
                 env[st.targets[0].id] = substitute(st.value, env)
+            elif isinstance(st, ast.Assign) and len(st.targets) == 1 and isinstance(st.targets[0], (ast.Tuple, ast.List)) and len(st.targets[0].elts) == 2 \
+                    and all(isinstance(t, ast.Name) for t in st.targets[0].elts) and isinstance(st.value, ast.Call) and isinstance(st.value.func, ast.Name) \
+                    and st.value.func.id == 'divmod' and len(st.value.args) == 2:
+                # q, r = divmod(a, b)   ==   q = a // b ; r = a % b
+                a_, b_ = (substitute(x, env) for x in st.value.args)
+                env[st.targets[0].elts[0].id] = ast.BinOp(left=a_, op=ast.FloorDiv(), right=b_)
+                env[st.targets[0].elts[1].id] = ast.BinOp(left=a_, op=ast.Mod(), right=b_)
             else:
                 return None
         for n in ast.walk(body[-1].value):
